@@ -1026,7 +1026,7 @@ func (txn *KVTxn) rollbackPessimisticLocks() error {
 		return nil
 	}
 	ctx := context.WithValue(context.Background(), util.RequestSourceKey, *txn.RequestSource)
-	bo := retry.NewBackofferWithVars(ctx, cleanupMaxBackoff, txn.vars)
+	bo := retry.NewBackofferWithVars(ctx, cleanupMaxBackoff, txn.vars).KeepGoingWhenKilled()
 	if txn.interceptor != nil {
 		// User has called txn.SetRPCInterceptor() to explicitly set an interceptor, we
 		// need to bind it to ctx so that the internal client can perceive and execute
@@ -1902,7 +1902,7 @@ func (txn *KVTxn) asyncPessimisticRollback(ctx context.Context, keys [][]byte, s
 			}
 		}
 
-		err := committer.pessimisticRollbackMutations(retry.NewBackofferWithVars(ctx, pessimisticRollbackMaxBackoff, txn.vars), &PlainMutations{keys: keys})
+		err := committer.pessimisticRollbackMutations(retry.NewBackofferWithVars(ctx, pessimisticRollbackMaxBackoff, txn.vars).KeepGoingWhenKilled(), &PlainMutations{keys: keys})
 		if err != nil {
 			logutil.Logger(ctx).Warn("[kv] pessimisticRollback failed.", zap.Error(err))
 		}
